@@ -64,6 +64,10 @@ def build(sc):
 def run_job(job, w):
     from rt import harness, oracles, hookbridge
     harness.setup_process(job["K"])
+    ty = None
+    if job.get("ty_which"):
+        # sleeps at line boundaries inside the engine life-cycle functions / controller callbacks (see rt.harness)
+        ty = harness.install_targeted_yield(p=0.15, max_sleep=0.004, seed=job.get("ty_seed", 0), which=job["ty_which"])
     for sc in job["scenarios"]:
         if "steps" in sc:
             run_engine_scenario(sc, w, job)
@@ -302,6 +306,11 @@ def main():
         for j in jobs[::4]:
             j["K"] = 10.0
             j["scenarios"] = [gen_engine_scenario(rng) for _ in range(6)] + [gen_repeating_scenario(rng) for _ in range(4)]
+        for i, j in enumerate(jobs):
+            # every second child: yield injection inside the engine life cycle / controller callbacks
+            if (i + rnd) % 2 == 1:
+                j["ty_which"] = ("lifecycle", "controller", "all")[((i + rnd) // 2) % 3]
+                j["ty_seed"] = rnd * 1000 + i
         vlib.fanout("checks.C12", jobs, c, timeout=1500)
         rnd += 1
         if c.evaluations >= floor_runs or c.elapsed() > budget:
